@@ -1,9 +1,10 @@
 use crate::engine::core::Check;
 
 pub mod c09;
+pub mod c13;
 
 pub fn all() -> Vec<&'static dyn Check> {
-    vec![&c09::C09]
+    vec![&c09::C09, &c13::C13]
 }
 
 pub fn find(id: &str) -> Option<&'static dyn Check> {
